@@ -244,6 +244,9 @@ def normalise(unit, text, log=None):
             names[n] = a['why']
     k = 0
     while k < len(ts):
+        if ts[k][1] == 'quote' and k + 2 < len(ts) and ts[k + 1][1] == '!' and ts[k + 2][1] in ('(', '[', '{'):
+            k = match_close(ts, k + 2) + 1  # the template of generated code is text: never rewritten
+            continue
         if names and ts[k][1] == '#' and k + 2 < len(ts) and ts[k + 1][1] == '[' and ts[k + 2][1] in names:
             e = match_close(ts, k + 1)
             kept = []
